@@ -299,8 +299,41 @@ def check(run: Run) -> None:
                                 f"(`{h[:80]}`) were read from", loc=loc)
         run.sites(n, 5, "leaf registration sites")
 
+    with run.obligation("C11.g", "K7+K2", "swap-remove of a leaf: the paths that change are those of the removed leaf and of the LAST leaf (which moves into the "
+                        "hole); record_removed_leaf_paths and remove_leaf_at agree on which leaf is last (size - 1), and the paths are recorded before the "
+                        "leaf is removed (the size changes)"):
+        lasts = {}
+        for nm in ("record_removed_leaf_paths", "remove_leaf_at"):
+            fa = R.fn(run, RED, nm)
+            cn = R.aliases_of(fa)
+            d = R.find(fa, lambda n: isinstance(n, C.Declarator) and n.name == "last")
+            lasts[nm] = cn(d[0].init).replace(" ", "") if d else None
+        run.count(1, "C11.g.last")
+        if lasts["record_removed_leaf_paths"] != "storage.dense_to_key.size()-1" or lasts["remove_leaf_at"] != "storage.dense_to_key.size()-1":
+            run.finding("C11.g", "swap-remove:last-leaf", f"the last leaf is index size-1 in both functions; found {lasts}: the moved leaf's old path would be "
+                        "recorded one leaf off and a combiner above it keeps a dead binding", loc=RED)
+        fa = R.fn(run, RED, "record_removed_leaf_paths")
+        cn = R.aliases_of(fa)
+        pushed = [cn(c.args[0]) for c in R.calls(fa, "push_back") if cn(c.fn).endswith("structural_leaves.push_back")]
+        guard = [cn(s0.cond).replace(" ", "") for s0 in fa.body.walk() if isinstance(s0, C.If)]
+        if pushed != ["leaf", "last"] or guard not in (["leaf!=last"], ["last!=leaf"]):
+            run.finding("C11.g", "record_removed_leaf_paths:paths", f"must record the removed leaf and, if different, the last leaf: pushes {pushed} guard {guard}", loc=RED)
+        n = 0
+        for fd in t.file(RED).funcs:
+            if fd.body is None or "remove_leaf_at" not in t.file(RED).text(fd.body[0], fd.body[1]) or fd.name == "remove_leaf_at":
+                continue
+            fa = R.parse(run, fd, strict=False)
+            fl = R.flow(run, fa)
+            rm = R.call_is(name="remove_leaf_at")
+            if not fl.nodes_of(rm):
+                continue
+            n += 1
+            R.k2_precede(run, "C11.g", fl, R.call_is(name="record_removed_leaf_paths"), rm, f"{fd.name}: the changing paths are recorded before the swap-remove")
+        run.sites(n, 1, "swap-remove call sites")
+
 
 VARIANTS = [
+    {"id": "g-last-leaf-one-too-far", "expect": "C11.g", "edits": [{"file": RED, "find": "            const std::size_t last = storage.dense_to_key.size() - 1;\n            storage.structural_leaves.push_back(leaf);", "replace": "            const std::size_t last = storage.dense_to_key.size();\n            storage.structural_leaves.push_back(leaf);"}]},
     {"id": "f-slot-gets-dense-index", "expect": "C11.f", "edits": [{"file": RED, "find": "                    storage.dense_to_key.push_back(std::move(key));\n                    storage.dense_to_source_slot.push_back(index);\n                    storage.dense_to_source_handle.push_back(\n                        effective_output_handle(child.bound_output()));", "replace": "                    storage.dense_to_key.push_back(std::move(key));\n                    storage.dense_to_source_slot.push_back(dense_leaf);\n                    storage.dense_to_source_handle.push_back(\n                        effective_output_handle(child.bound_output()));"}]},
     {"id": "b2-modified-leaves-skipped-on-rebuild", "expect": "C11.b2", "edits": [{"file": RED, "find": "            if (!full_scan && collection_event &&\n                context.collection_ops->available(collection_input))", "replace": "            if (!full_scan && !rebuilt && collection_event &&\n                context.collection_ops->available(collection_input))"}]},
     {"id": "a-zero-with-two", "expect": "C11.a", "edits": [{"file": RED, "find": "if (context.spec.has_zero && live == 1 && !storage.combiners.empty())", "replace": "if (context.spec.has_zero && live >= 1 && !storage.combiners.empty())"}]},
